@@ -110,6 +110,23 @@ def check_cfg(job):
             out.append(("value", "%s input: %s differs from the transform of the same values in C order" % (lab, cfg["dir"])))
         if not np.array_equal(xv, xv0):
             out.append(("input_mutated", "%s modified its %s input" % (cfg["dir"], lab)))
+    # the operators (no resize, orthonormal): FFT / IFFT carry axes and center to their adjoints, from either side
+    if cfg["ortho"] and osh is None and x128.size <= 24:
+        from . import linop_build
+
+        try:
+            Lf = (sp.linop.FFT if cfg["dir"] == "fft" else sp.linop.IFFT)(list(shape), axes=axes, center=cfg["center"])
+            Li = (sp.linop.IFFT if cfg["dir"] == "fft" else sp.linop.FFT)(list(shape), axes=axes, center=cfg["center"])
+            Fm, _ = linop_build.dense(Lf, check_i=False)
+            want = np.stack([expected(cfg, plan, e_.reshape(shape)).ravel() for e_ in np.eye(x128.size, dtype=np.complex128)], axis=1)
+            if Fm is None or not np.allclose(Fm, want, atol=1e-10):
+                out.append(("linop", "linop %s differs from the DFT-matrix definition" % cfg["dir"].upper()))
+            for lab, op, ref in (("H", Lf.H, want.conj().T), ("H.H", Lf.H.H, want), ("inverse-class", Li, want.conj().T), ("inverse-class.H", Li.H, want), ("N", Lf.N, np.eye(x128.size))):
+                Om, _ = linop_build.dense(op, check_i=False)
+                if Om is None or not np.allclose(Om, ref, atol=1e-10):
+                    out.append(("linop", "linop %s(axes=%s, center=%s).%s is not the expected matrix" % (cfg["dir"].upper(), axes, cfg["center"], lab)))
+        except Exception as e:
+            out.append(("exception", "FFT / IFFT linop raised %r" % (e,)))
     # round trip and norm (default orthonormal scaling, no resize)
     if cfg["ortho"] and osh is None:
         y = fn(x128, axes=axes, center=cfg["center"])
@@ -158,10 +175,11 @@ def run(ctx):
         r.nontrivial += 1 if (max(cfg_["shape"]) > 1) else 0
         for kind, detail in out:
             key = {"kind": kind, "dir": cfg_["dir"], "shape": list(cfg_["shape"]), "axes": list(cfg_["axes"]), "center": cfg_["center"], "ortho": cfg_["ortho"], "oshape": list(cfg_["oshape"])}
-            r.violations.append(core.Violation(["C05"] + (["C02"] if kind == "input_mutated" else []), "fourier", key, detail, {}))
+            r.violations.append(core.Violation(["C05"] + (["C02"] if kind == "input_mutated" else []) + (["C01"] if kind == "linop" else []), "fourier", key, detail, {}))
         if len(r.samples) < 5 and r.traces % 2111 == 1:
             r.samples.append({"dir": cfg_["dir"], "shape": list(cfg_["shape"]), "axes": list(cfg_["axes"]), "center": cfg_["center"], "ortho": cfg_["ortho"], "oshape": list(cfg_["oshape"])})
     r.exhaustive = bool(ctx.thorough)
     r.notes.append("%d of %d enumerated configurations replayed, each with complex128 / complex64 / float64 / delta input" % (len(jobs), total))
     r.count("C05", r.traces, r.evaluations, r.nontrivial)
+    r.count("C01", r.traces, r.evaluations, r.nontrivial)
     return r
